@@ -2,6 +2,8 @@
 
 pub mod common;
 pub mod f;
+pub mod r;
+pub mod rmodel;
 
 use serde::{Deserialize, Serialize};
 
@@ -11,6 +13,7 @@ use crate::{rng::Rng, Outcome, Sched, Tier};
 #[serde(tag = "world")]
 pub enum Scenario {
     F(f::Scn),
+    R(r::Scn),
 }
 
 #[derive(Clone, Debug, Default)]
@@ -26,6 +29,7 @@ pub fn generate(profile: &str, tier: Tier, seed: u64) -> Scenario {
     let mut rng = Rng::new(seed);
     match profile {
         "C04" => Scenario::F(f::generate(&mut rng, tier)),
+        "C05" | "C06" | "C16" | "C16-huge" | "C17" => Scenario::R(r::generate(&mut rng, tier, profile)),
         other => panic!("unknown profile {}", other),
     }
 }
@@ -33,6 +37,7 @@ pub fn generate(profile: &str, tier: Tier, seed: u64) -> Scenario {
 pub fn execute(scn: &Scenario, opts: &ExecOpts) -> Outcome {
     match scn {
         Scenario::F(s) => f::execute(s, opts),
+        Scenario::R(s) => r::execute(s, opts),
     }
 }
 
@@ -40,11 +45,13 @@ pub fn execute(scn: &Scenario, opts: &ExecOpts) -> Outcome {
 pub fn shrink(scn: &Scenario) -> Vec<Scenario> {
     match scn {
         Scenario::F(s) => f::shrink(s).into_iter().map(Scenario::F).collect(),
+        Scenario::R(s) => r::shrink(s).into_iter().map(Scenario::R).collect(),
     }
 }
 
 pub fn size(scn: &Scenario) -> usize {
     match scn {
         Scenario::F(s) => f::size(s),
+        Scenario::R(s) => r::size(s),
     }
 }
